@@ -26,6 +26,11 @@ func valueFieldByName(v reflect.Value, fields []string) (out reflect.Value, ok b
 		v = v.Elem()
 	}
 
+	// the path ended on a pointer, which is now dereferenced
+	if len(fields) == 0 {
+		return v, v.IsValid()
+	}
+
 	out = v.FieldByName(fields[0])
 
 	// if pointer we dereference
